@@ -95,4 +95,17 @@ def filesSeqFastHandler : Handler
       (if written == got then .ok () else .error "two writes within the same second are reloaded in name order, not in write order"))
   | _ => none
 
+/-- (case id filesover (texts…) (listing…)): every file holds exactly header + one of the texts -/
+def filesOverHandler : Handler
+  | [texts, .list listing] => do
+    let texts ← texts.strs?
+    let got ← listing.mapM decodeEntry
+    let bad := got.find? fun (_, c) => match c with
+      | some txt => !(texts.any (fun t => txt == genDescription ++ t))
+      | none => true
+    some (match bad with
+      | none => okV
+      | some (p, c) => propFail "C11" s!"file {p} does not hold exactly the header followed by one migration text: {SExp.quote ((c.getD "<dir>").take 200).toString}")
+  | _ => none
+
 end Sqlize.Driver
